@@ -43,7 +43,7 @@ func genLevelValue(t *rapid.T, level string) string {
 
 // TestC18: environment and job variables reach exactly the right task commands.
 func TestC18(t *testing.T) {
-	col := ev.Get("C18", "env", "1-3 pipelines (concurrency 1 or 3, so that jobs also wait while later requests arrive) x 1-3 tasks with real processes; some tasks have environment variables named like a job variable or like the reserved job-identity variable (they are environment only); in a third of the cases the pipeline-level values are edited by a reload right after the jobs were accepted, while some still wait (they keep the values of their own definition); the jobs of a case are scheduled by ScheduleAsync or, in half of the cases, over the HTTP API; each of 6 variable names is assigned to a generated subset of {prunner process, pipeline, task} with distinct values containing spaces, quotes, newlines, $, =, backticks, non-ASCII and the empty string; 2-5 jobs run concurrently, each with its own variables (strings - also with & < > \" + $ ; and URL-like values -, numbers, booleans, nested maps); every task runs 'vhelper dumpenv' (a real child process), 'vhelper args \"${NAME-<unset>}\"...' (interpreter expansion) and 'vhelper args {{ .var }}...' (template); oracle per name: child value = task value if defined, else pipeline value, else process value, else unset, byte for byte; TASK_NAME = task name; the rendered script shows exactly its own job's variables; a job scheduled with the reserved variable name runs nothing, ends canceled with an error and leaves the job it named unchanged; non-trivial = a name defined at >=2 levels with a shell-special value and >=2 jobs overlapping; distinct by assignment")
+	col := ev.Get("C18", "env", "1-3 pipelines (concurrency 1 or 3, so that jobs also wait while later requests arrive) x 1-3 tasks with real processes; some tasks have environment variables named like a job variable or like the reserved job-identity variable (they are environment only); in a third of the cases the pipeline-level values are edited by a reload right after the jobs were accepted, while some still wait (they keep the values of their own definition); the jobs of a case are scheduled by ScheduleAsync or, in half of the cases, over the HTTP API; each of 6 variable names is assigned to a generated subset of {prunner process, pipeline, task} with distinct values containing spaces, quotes, newlines, $, =, backticks, non-ASCII and the empty string; 2-5 jobs run concurrently, each with its own variables (over the Go API also Go values: int, int64 beyond 2^53, time.Duration; strings - also with & < > \" + $ ; and URL-like values -, numbers, booleans, nested maps); every task runs 'vhelper dumpenv' (a real child process), 'vhelper args \"${NAME-<unset>}\"...' (interpreter expansion) and 'vhelper args {{ .var }}...' (template); oracle per name: child value = task value if defined, else pipeline value, else process value, else unset, byte for byte; TASK_NAME = task name; the rendered script shows exactly its own job's variables; a job scheduled with the reserved variable name runs nothing, ends canceled with an error and leaves the job it named unchanged; non-trivial = a name defined at >=2 levels with a shell-special value and >=2 jobs overlapping; distinct by assignment")
 	vh := helper(t)
 	rapid.Check(t, func(rt *rapid.T) {
 		c := envCase{proc: map[string]string{}, pipes: map[string]map[string]string{}, tasks: map[string]map[string]map[string]string{}}
@@ -89,7 +89,7 @@ func TestC18(t *testing.T) {
 				td := definition.TaskDef{Script: []string{
 					vh + " dumpenv VF_ vf_ _VF_ TASK_NAME= ARGS= LANG= EDITOR=",
 					vh + " args " + strings.Join(expand, " "),
-					vh + " args '{{ .v0 }}' '{{ .v1 }}' '{{ .num }}' '{{ .flag }}' '{{ .nested.k }}'",
+					vh + " args '{{ .v0 }}' '{{ .v1 }}' '{{ .num }}' '{{ .flag }}' '{{ .nested.k }}' '{{ .gi }}' '{{ .gd }}' '{{ .gi64 }}'",
 				}}
 				if len(c.tasks[pn][tn]) > 0 {
 					td.Env = c.tasks[pn][tn]
@@ -159,6 +159,14 @@ func TestC18(t *testing.T) {
 				"num":    float64(rapid.IntRange(0, 100000).Draw(rt, "num")),
 				"flag":   rapid.Bool().Draw(rt, "flag"),
 				"nested": map[string]interface{}{"k": fmt.Sprintf("nk%d", i)},
+				// (over HTTP everything is JSON; a program that embeds the runner passes Go values, which a
+				// template prints their own way: 1234567, 1m30s, 1152921504606846977)
+				"gi": "s-gi", "gd": "s-gd", "gi64": "s-gi64",
+			}
+			if !viaHTTP {
+				vars["gi"] = 1234567 + i
+				vars["gd"] = 90*time.Second + time.Duration(i)*time.Millisecond
+				vars["gi64"] = int64(1<<60) + int64(i) + 1
 			}
 			var id uuid.UUID
 			if viaHTTP {
@@ -277,7 +285,7 @@ func TestC18(t *testing.T) {
 				if child["TASK_NAME"] != tn {
 					rt.Fatalf("pipeline %s task %s: TASK_NAME is %q", j.p, tn, child["TASK_NAME"])
 				}
-				wantR := []string{fmt.Sprint(j.vars["v0"]), fmt.Sprint(j.vars["v1"]), fmt.Sprint(j.vars["num"]), fmt.Sprint(j.vars["flag"]), fmt.Sprint(j.vars["nested"].(map[string]interface{})["k"])}
+				wantR := []string{fmt.Sprint(j.vars["v0"]), fmt.Sprint(j.vars["v1"]), fmt.Sprint(j.vars["num"]), fmt.Sprint(j.vars["flag"]), fmt.Sprint(j.vars["nested"].(map[string]interface{})["k"]), fmt.Sprint(j.vars["gi"]), fmt.Sprint(j.vars["gd"]), fmt.Sprint(j.vars["gi64"])}
 				if strings.Join(rendered, "\x00") != strings.Join(wantR, "\x00") {
 					rt.Fatalf("job %d (pipeline %s) task %s: script rendered with %q, the job was scheduled with %q", ji, j.p, tn, rendered, wantR)
 				}
